@@ -238,7 +238,9 @@ def huge_chunk_stream(rng, pid):
     cases = []
     i = 0
     for hint in ("unbounded", "inexact", "exact", "fixed3"):
-        for n in (1 << 62, (1 << 63) + 5, MAXW - 1, MAXW):
+        # sizes that keep the cumulative requested count below 2^64 together with the few other pulls of the case: beyond that
+        # the reserved counter wraps (finding H1; the property's own exclusion for C01/C05) and tickets are re-issued
+        for n in (1 << 62, (1 << 63) + 5, MAXW - 64, MAXW - 16):
             for pre in (0, 1):
                 for nt in (1, 2):
                     c = make_source(rng, "%s-huge%d" % (pid, i), "iter", 3, hint=hint)
